@@ -911,6 +911,19 @@ class _Fam:
                 out['Tg'] = T
         return out
 
+    def dilute(self, rng):
+        """a matrix-only (single-phase) composition: no two-phase equilibrium with any precipitate phase exists there"""
+        f = float(rng.uniform(1.0, 2.0))
+        if self.family == 'binary':
+            return 1e-5 * f
+        if self.family == 'binary2':
+            return 0.008 * f
+        if self.family == 'multi':
+            return np.array([0.01 * f, 0.006 * f])
+        if self.family == 'multiphase':
+            return np.array([1e-4 * f, 8e-5 * f])
+        return np.array([0.02 * f, 0.01 * f])
+
     def random_points(self, rng, box, n):
         ne = len(box['x'])
         if self.case['logX']:
@@ -971,6 +984,53 @@ def _untrained_calls(F, rng, box, dnames, precs=None, dphases=None, default_prec
     return calls
 
 
+CLEAR = ('clear', None, (), {}, '')
+
+
+def _history_calls(F, rng, box, dnames):
+    """query HISTORY on one backend object: dilute (matrix-only) point before anything was computed, a successful two-phase
+    calculation, dilute points afterwards with removeCache False / True, clearCache(), default arguments, again - for the phase
+    argument left out and for every admissible explicit value; every public pass-through getter takes part"""
+    x, T, g = F.random_points(rng, box, 2)
+    two = float(x[0]) if F.binary else np.array(x[0])
+    dil = F.dilute(rng)
+    T0, T1 = float(T[0]), float(T[1])
+    R_ = np.array([0.6e-9, 1e-9, 3e-9])
+    gE = 2 * 0.023 * 6.57e-6 / R_
+
+    def prec_block(x_, T_, kw, lab, rc):
+        k = dict(kw) if rc is None else dict(kw, removeCache=rc)
+        out = [('drivingForce', 'getDrivingForce', (x_, T_), dict(k), lab)]
+        if F.binary:
+            out.append(('interfacialComposition', 'getInterfacialComposition', (T_, np.array(g)), dict(kw), lab))
+        else:
+            out += [('curvature', 'curvatureFactor', (x_, T_), dict(k), lab),
+                    ('impingement', 'impingementFactor', (x_, T_), dict(k), lab),
+                    ('growth', 'getGrowthAndInterfacialComposition', (x_, T_, 600.0, R_, gE), dict(k), lab),
+                    ('impingement', 'impingementFactor', (x_, T_), dict(k), lab)]
+        return out
+
+    def diff_block(x_, T_, kw, lab, rc):
+        k = dict(kw) if rc is None else dict(kw, removeCache=rc)
+        return [('interdiffusivity', 'getInterdiffusivity', (x_, T_), dict(k), lab), ('tracerDiffusivity', 'getTracerDiffusivity', (x_, T_), dict(k), lab)]
+
+    calls = []
+    for p in (([None] + list(F.precs)) if F.precs else []):
+        kw, lab = ({} if p is None else {'precPhase': p}), _sel(F.precs, p)
+        for x_, T_, rc in ((dil, T0, True), (two, T0, False), (dil, T0, False), (dil, T1, True)):
+            calls += prec_block(x_, T_, kw, lab, rc)
+        calls.append(CLEAR)
+        for x_, T_, rc in ((dil, T0, None), (two, T1, True), (dil, T1, True), (dil, T0, None)):
+            calls += prec_block(x_, T_, kw, lab, rc)
+    for ph in [None] + list(dnames):
+        kw, lab = ({} if ph is None else {'phase': ph}), _sel(dnames, ph)
+        for x_, T_, rc in ((two, T0, False), (dil, T0, False), (dil, T1, True)):
+            calls += diff_block(x_, T_, kw, lab, rc)
+        calls.append(CLEAR)
+        calls += diff_block(dil, T0, kw, lab, None)
+    return calls
+
+
 def _copyargs(args):
     return tuple(np.array(v, copy=True) if isinstance(v, np.ndarray) else v for v in args)
 
@@ -981,12 +1041,22 @@ def _passthrough(F, R, surr, ref, calls, state):
     couple the two calls)."""
     seen_groups = {}
     for group, name, args0, kw, lab in calls:
+        if group == 'clear':         # the user clears the caches of the shared backend object (both twins)
+            ref.clearCache()
+            surr.therm.clearCache()
+            continue
         mech = {'family': F.family, 'getter': name, 'state': state, 'phase': lab}
+        if state == 'query_history':
+            mech['removeCache'] = kw.get('removeCache', 'default')
         args = _copyargs(args0)
         try:
             b = getattr(ref, name)(*_copyargs(args0), **kw)
         except Exception as e:       # the backend itself refuses the input: outside the statement
             R.observe('backend_rejected_query')
+            try:                     # keep the two backends on the same call history
+                getattr(surr, name)(*args, **kw)
+            except Exception:
+                pass
             continue
         try:
             a = getattr(surr, name)(*args, **kw)
@@ -1233,6 +1303,12 @@ def _run_surrogate(case, R):
     groups = _passthrough(F, R, sA, thB, _untrained_calls(F, rng, box, dnames), 'nothing_trained')
     for gname in groups:
         R.add_nontrivial(key0 + '-untrained-' + gname)
+
+    # ---------------------------------------------------------------- (a2) nothing trained: query histories on the shared backend
+    sH, thH = F.surrogate(F.therm()), F.therm()
+    groups = _passthrough(F, R, sH, thH, _history_calls(F, rng, box, dnames), 'query_history')
+    for gname in groups:
+        R.add_nontrivial(key0 + '-history-' + gname)
 
     # ---------------------------------------------------------------- (b) trained reproduces its training data
     # which quantities are trained, per admissible phase value: case['train'] = {'prec': [quantities of precs[0], of precs[1], ...],
